@@ -54,22 +54,53 @@ def check_case(case):
   if engine.uses_skip_checks(out):
     labels.append('skip_checks:interpreter_clause_skipped')
   else:
-    try:
-      it = interp.make(out.qbytes)
-    except Exception as e:  # pylint: disable=broad-except
-      raise Violation('interpreter_prepare_failed', core._NUM.sub('N', str(e))[:300])
-    for si, sg in enumerate(case['model']['subgraphs']):
-      try:
-        runner = it.get_signature_runner(sg['sig'])
-        ins = G.make_inputs(case['model'], si, case.get('input_seed', 0))
-        det = runner.get_input_details()
-        ins = {k: engine.quantize_like_tensor(v, det[k]) for k, v in ins.items()}
-        runner(**ins)
-      except Exception as e:  # pylint: disable=broad-except
-        raise Violation('interpreter_invoke_failed', core._NUM.sub('N', str(e))[:300])
+    from vq import isolated, kfpred
+    u = kfpred.unsafe_findings(case)
+    if u and not kfpred.take_isolation_budget(u):
+      labels += ['execution_excluded:' + x for x in u]
+    elif u:
+      # matches a recorded runtime-UB finding: execute in a throw-away process
+      status, r = isolated.run('vq.props.c01', 'interpreter_clause', case)
+      labels += ['isolated:' + x for x in u]
+      if status == 'violation':
+        raise r
+      if status == 'abort':
+        raise Violation('process_abort', 'interpreter died with signal %s' % r)
+    else:
+      interpreter_clause(case, out)
   nontrivial = n_ins > 0 and bool(feats & NT_FEATURES)
   labels += ['feat:' + f for f in feats if not f.startswith(('op:', 'nodes='))]
   return core.result(nontrivial, labels)
+
+
+def interpreter_clause(case, out=None):
+  if out is None:
+    out = engine.run(case)
+  try:
+    it = interp.make(out.qbytes)
+  except Exception as e:  # pylint: disable=broad-except
+    raise Violation('interpreter_prepare_failed', core._NUM.sub('N', str(e))[:300])
+  for si, sg in enumerate(case['model']['subgraphs']):
+    try:
+      runner = it.get_signature_runner(sg['sig'])
+      ins = G.make_inputs(case['model'], si, case.get('input_seed', 0))
+      det = runner.get_input_details()
+      ins = {k: engine.quantize_like_tensor(v, det[k]) for k, v in ins.items()}
+      runner(**ins)
+    except Exception as e:  # pylint: disable=broad-except
+      raise Violation('interpreter_invoke_failed', core._NUM.sub('N', str(e))[:300])
+  return None
+
+
+def kf_addsub_int16_pot(case, violation):
+  from vq import kfpred
+  return kfpred.addsub_int16_pot(case, violation)
+
+
+def kf_unsafe_runtime(case, violation):
+  """process abort on a model matching one of the recorded runtime-UB findings."""
+  from vq import kfpred
+  return bool(kfpred.unsafe_findings(case))
 
 
 def kf_bmm_const_lhs(case, violation):
